@@ -164,5 +164,23 @@ func registry() map[string]PropSpec {
 		},
 		Assumptions: []string{"(*yaml.Node).Decode on a !!str scalar node yields its Value (engine intrinsic; natively the real library)"},
 	})
+	add(PropSpec{
+		ID: "C08",
+		Harnesses: []HSpec{
+			{Pkg: "ordered", Name: "c08_decode_order", Quick: map[string]int{"entries": 3}, Thorough: map[string]int{"entries": 5}, Unwind: [2]int{32, 48},
+				What: "DecodeYAML, Map[string,string].UnmarshalOrdered, MarshalJSON and MarshalYAML keep document order for every key set (0-2-byte keys incl. the empty key)"},
+			{Pkg: "ordered", Name: "c08_roundtrip", Quick: map[string]int{"entries": 2}, Thorough: map[string]int{"entries": 3}, Unwind: [2]int{32, 48},
+				What: "a programmatically built ordered map (nested one level) survives YAML encode -> node-level decode with keys, values and order"},
+			{Pkg: "ordered", Name: "c07_merge_chain", Quick: map[string]int{}, Unwind: [2]int{32, 32},
+				What: "merged keys stand where the merge key stood (shared with C07: order is part of the reference comparison)"},
+			{Pkg: ".", Name: "c08_plugins_order", Quick: map[string]int{"entries": 3}, Thorough: map[string]int{"entries": 4}, Unwind: [2]int{48, 64},
+				What: "Plugins.UnmarshalOrdered on the one-mapping form appends in mapping order; the pipeline env block decodes and marshals (JSON data model) in document order"},
+		},
+		Outside: []string{
+			"token order in the bytes produced by encoding/json and yaml.v3 (library emitters); keys that need quoting (the libraries' quoting)",
+			"sizes beyond the bounds: the engine explores every Go-map iteration order, so any routing through a Go map shows with 2 entries; Go's runtime small-map threshold is irrelevant to the symbolic semantics",
+		},
+		Assumptions: []string{"yaml.Node.Encode/Decode on string scalars modelled (Tag !!str, Value)", "json.Marshal in the abstract JSON data model"},
+	})
 	return r
 }
